@@ -34,6 +34,14 @@ PROPS = {
         assumptions=['e2fsprogs 1.47.0 in the sandbox (/usr/sbin/e2fsck, debugfs) is the reference; a tool that cannot be run is an infrastructure note, never a verdict',
                      'a Create parameter set that panics is neither accepted nor cleanly refused; it is recorded as informational (the statement quantifies over accepted sets)'],
     ),
+    'C06': dict(
+        level='exploration',
+        quick=dict(runs=[run('TestC06', 250, timeout=400, shrinktime='30s')]),
+        thorough=dict(runs=[run('TestC06', 6000, timeout=3000, shrinktime='120s')]),
+        assumptions=['plain ISO names are judged against the level-1 rule implemented in the harness (split at the first dot, upper-case, [^A-Z0-9_] -> _, 8+3 truncation, directories keep the base name); under a name collision only the number of entries is compared',
+                     'symlink targets are generated in the form a Rock Ridge SL record can represent (single slashes, no trailing slash)',
+                     'the independent walker judges the primary tree only; oddities of the Joliet tree are reported as diagnostics'],
+    ),
     'C08': dict(
         level='exploration',
         quick=dict(runs=[run('TestC08', 30, timeout=400, shrinktime='45s')]),
